@@ -4,6 +4,46 @@ import json, os, subprocess
 ROOT = os.path.dirname(os.path.dirname(os.path.abspath(__file__)))
 
 CHECKS = {
+ "C01": dict(
+   text="Generated-input search over expression programs with an independent oracle: 400k random programs per quick run (6M thorough; depth <= 6, 1-25 nodes, 1-5 variables) over + - * / neg abs exp log norm_cdf inv_norm_cdf and real powers, every binary node in one of the 4 ownership forms with bare floats on either side, leaves tagged as own variable / padded permuted list / shared list; an interpreter dispatches each node to the exact trait impl and per-variant hit counters have floors, so each of the ~60 macro-generated variants is exercised. Value is compared with plain f64 evaluation, the gradient with an independent dense forward-mode evaluator under a first-order running error bound (plus the metamorphic twin with constants promoted to duals). It cannot prove exactness for all programs; it shows no variant disagrees on what was generated.",
+   note="Points are kept differentiable by a deterministic sanitiser; tolerance 1e-10 x running error bound, with an explicit allowance (5e-11 absolute, propagated) for the measured branch-point jumps of the float normal cdf implementation; reference cross-checked by finite differences on ~2% of cases.",
+   technique="property-based testing (proptest, shrinking) with a differential oracle (independent dense forward-mode AD) and a metamorphic twin",
+   design="5/C01"),
+ "C02": dict(
+   text="The C01 programs evaluated on second-order numbers: 200k per quick run (4M thorough) with a requested variable list (any order / subset / superset). gradient2 must be symmetric and equal to the reference Hessian (true second derivatives, 1e-9 x running error bound); value and gradient must agree with the reference and with the same program run on first-order numbers; From<Dual2>/From<&Dual2> for Dual must keep value, names and first derivatives bit-for-bit. Floors require cross terms after >= 3 composed operations in >= 20% of cases and every Dual2 operator variant to be hit.",
+   note="As C01; second-order error terms are covered by loose magnitude floors (eps^2 scale).",
+   technique="property-based testing (proptest, shrinking) with a differential oracle (independent dense second-order forward-mode AD)",
+   design="5/C02"),
+ "C03": dict(
+   text="Exhaustive enumeration of every pair of ordered subsets of a 4-name universe (65 x 65 layouts) x {own, shared storage} x {+,-,*,/,%,==} x {Dual, Dual2} with name-dependent dyadic coefficients, plus 400k random layout pairs over 8 names per quick run (4M thorough) with zero padding and pairs built equal-by-name in different layouts or differing in exactly one coefficient. Oracle: independent by-name formulas per operator, invariance against the same operands on one shared sorted list, result variables == set union (each once) with matching array shapes, == <=> equal by name with missing == 0 (both operand orders). The small-universe enumeration is complete for layout relationships; values are sampled.",
+   note="Results are read from the result's own arrays, not through gradient1/2 (C17). Name order on results is not asserted.",
+   technique="exhaustive layout enumeration + property-based testing (proptest) against independent by-name formulas and a layout-invariance metamorphic relation",
+   design="5/C03"),
+ "C09": dict(
+   text="Generated-input search: 60k random quote sets per quick run (1.5M thorough): labelled trees on 2-12 currencies (random recursive trees, forced chains and stars, random relabelling, orientation, quote order, base, optional settlement date, rates over 8 orders of magnitude), ~40% deliberately damaged (under/over-specified, cycle plus island with the right count, duplicate and reverse-duplicate pairs, mixed settlement, base outside). A union-find decides validity; for valid sets all n*n crosses are checked against BFS path products (1e-12), quoted pairs bit-exact, diagonal exactly 1, inverse law, and a reshuffled / re-based twin market; invalid sets must be rejected.",
+   note="Rates are plain floats here (dual quotes are C10's subject).",
+   technique="property-based testing (proptest, shrinking) against a graph reference model (union-find + BFS path product) and a metamorphic twin",
+   design="5/C09"),
+ "C10": dict(
+   text="Model-based (stateful) testing: 15k random histories per quick run (500k thorough) of 0-12 operations (update, set order 0/1/2, three kinds of refused update) on valid markets with float and dual quotes, interpreted against a model holding the latest quotes; after construction and after every step all n*n rates, their first-order sensitivities by variable NAME (fx_xxxyyy / own variables / zero elsewhere) and, at order 2, their Hessians are compared with analytic path formulas, updates with a directly built market, refused updates with a clone (== and bit-identical rates), order switches for value preservation. The history shrinks as one value.",
+   note="Order after an update is not asserted; second-order numbers as input quotes are not generated.",
+   technique="stateful model-based property testing (operation sequences as vec(op) + interpreter, proptest shrinking) with analytic sensitivity oracle",
+   design="5/C10"),
+ "C17": dict(
+   text="200k random (stored number, requested name list) cases per quick run (4M thorough): layouts of 0-5 of 8 names, symmetric and non-symmetric second-order storage, requests equal to the stored list (fast path), reversed, subsets, supersets with absent names at any position, free lists, empty. gradient1/gradient2 must be exactly the stored coefficient (x2) or 0 in the requested order; gradient1_manifold entries must have value = first derivative, own gradient = Hessian row (zero for absent names), no second-order part; the product rule on manifolds must reproduce the Hessian of a product.",
+   note="Requested names are distinct, as the property states.",
+   technique="property-based testing (proptest, shrinking) against an exact by-name lookup model and an algebraic identity",
+   design="5/C17"),
+ "C18": dict(
+   text="60k random tuples per quick run (1.2M thorough), and for every tuple the complete tables: 3 source kinds x 3 target orders through set_order, set_order_clone and every From impl against the conversion table (bit-exact), and {+,-,*,/,%} x all 9 kind pairings (ref and owned forms) plus float-left/right, ==, partial_cmp, neg, abs, exp, log, norm_cdf, inv_norm_cdf, pow, signum, abs_sub, sum, zero, one on the container against the same operation written on the contained types (bit-exact); first-order with second-order pairings must not return a value. Floors require every cell of the table.",
+   note="The contained types' arithmetic is the reference (verified by C01-C03); any panic counts as refusal.",
+   technique="property-based testing (proptest) with complete operator/kind tables per case; differential against the contained types",
+   design="5/C18"),
+ "C19": dict(
+   text="150k random cases per quick run (3M thorough) over both kinds: comparisons between numbers and with floats on either side against the float comparison of the values, unchanged under replacement of derivative parts; abs; remainder in all operand forms against a - b*trunc(a/b) by name and the float remainder; sums against a left fold from zero; additive/multiplicative identities by name; is_zero. Sign quadrants of (a, b) have floors.",
+   note="abs at 0 and zero divisors are excluded (documented as undefined).",
+   technique="property-based testing (proptest, shrinking) with metamorphic (derivative-replacement) and algebraic-law oracles",
+   design="5/C19"),
  "C05": dict(
    text="Generated-input search against a count model: ~120k random (calendar, start date, operation, day count, flag) cases per quick run (2M thorough) covering add_bus_days, lag, bus_date_range and add_days, with day counts over the whole i8 range weighted to 0, +-1, +-2, +-127 and -128, business and non-business starts, plus an enumeration of all 256 day counts x both flags x three operations on sampled (built-in calendar, date) pairs. The oracle counts business days one at a time over the calendar's own predicates, applies the settlement roll in the direction of n, and asserts the inverse law and the error contract. Exploration only: it shows agreement on everything generated, not for every calendar.",
    note="Trusts is_bus_day/is_settlement of the calendar (C06/C07). lag(non-business date, 0, settlement=true) is under-specified by the documentation; both readings are accepted.",
